@@ -337,6 +337,19 @@ func scenarioC10(r *Run) {
 	if it, e := refcbor.ParseOne(append(refcbor.Encode(refcbor.Bstr(rp.Prot)), []byte{}...)); e == nil && len(it.Data) > 0 && refcbor.IsCanonicalBytes(rp.Prot) != "" {
 		r.Probe("decoded-parent-noncanonical")
 	}
+	// the usual order at a receiver: the message itself is verified first,
+	// then its countersignatures - asking about the message must not change
+	// what the countersignature covers (the parent's signature bytes, in
+	// particular)
+	if t.Bool(1, 2, "c10.parent.first") {
+		vs := r.verifiersFor(spec, false)
+		if ms != nil {
+			r.Lib(func() { ms.Verify(spec.External, vs...) })
+		} else if m1 != nil && len(vs) > 0 {
+			r.Lib(func() { m1.Verify(spec.External, vs[0]) })
+		}
+		r.Fired("receiver.verifies-message-first")
+	}
 	// binding 1: verifies against the exact parent
 	verifier := r.verifierFor(key, false)
 	r.Check()
@@ -505,6 +518,22 @@ func c10Replays(r *Run, t *tape.Tape, made *c10Made, parent any, rp *refParent, 
 		if err == nil {
 			r.Fail("full-countersignature-accepted-as-abbreviated", "a full countersignature's signature verified as an abbreviated countersignature")
 		}
+	}
+	// a countersignature made the pre-RFC 9338 way over a COSE_Sign1 (context
+	// "CounterSignature", no other_fields: the parent's signature is not
+	// covered) by the genuine countersigner must not be taken for one that
+	// covers the parent's signature
+	if rp.Kind == refcose.PSign1 && made.full != nil && rp.Signed && rp.HasPay {
+		legacy := refcose.CountersignStructures(refcose.PSign, false, rp.Prot, made.signProt, made.external, rp.Payload, nil)[0]
+		sig := foreignSign(made.key, legacy, NewEntropy(3))
+		csL := &cose.Countersignature{Headers: made.full.Headers, Signature: sig}
+		var lerr error
+		r.Lib(func() { lerr = csL.Verify(verifier, parent, made.external) })
+		if lerr == nil {
+			r.Fail("legacy-structure-countersignature-accepted/Sign1", "a signature by the countersigner over the RFC 8152 structure (no other_fields, parent signature not covered) verified as an RFC 9338 countersignature of a COSE_Sign1")
+			return
+		}
+		r.Probe("replay-legacy-structure")
 	}
 	// as a message signature over the same parent fields
 	switch p := parent.(type) {
